@@ -15,14 +15,12 @@ const (
 	TagCapConflict  = "cap-conflict"     // impl block selecting capabilities that conflict (KF-c14-capability-conflict)
 	TagCastMulti    = "cast-multi-bad"   // runtime cast of an object with >= 2 offending fields (KF-c14-cast-error-order)
 	TagInitOrder    = "init-order"       // >= 2 imported modules: order of module initialisation (KF-c14-init-order)
-	TagEqMixed      = "anyobj-eq-mixed"  // == on any-objects whose fields differ in kind (KF-c14-anyobj-eq-crash)
 	TagMangle       = "mangle-collision" // locals whose mangled names collide (x + 10 vs x1 + 0)
 	TagMultiModule  = "multi-module"     // informational
 	KFXmod          = "KF-c14-xmod-resolution"
 	KFCapConflict   = "KF-c14-capability-conflict"
 	KFCastOrder     = "KF-c14-cast-error-order"
 	KFInitOrder     = "KF-c14-init-order"
-	KFEqMixed       = "KF-c14-anyobj-eq-crash"
 	KFMangleCollide = "KF-c14-mangle-collision"
 )
 
@@ -40,7 +38,6 @@ type Poison struct {
 	CapConflict bool
 	CastMulti   bool
 	MultiSingl  bool // singletons in several modules (host call order = init order)
-	EqMixed     bool
 	Mangle      bool
 }
 
@@ -184,6 +181,10 @@ func famModules(r *fw.Rng, p Poison) Built {
 			b.f("    x\n}\n")
 		}
 		b.f("pub fn describe_%s() -> str {\n    let x = label%s();\n", m, s)
+		if r.Chance(1, 2) {
+			// function literals: their names carry a counter shared by all modules
+			b.f("    let twice = fn(k: int) -> int { k * 2 };\n    let thrice = fn(k: int) -> int { k * 3 };\n    println(\"%s lambdas\", twice(%d), thrice(%d));\n", m, mi+1, mi+2)
+		}
 		if ng > 3 {
 			b.f("    println(\"%s cfg\", %s);\n", m, gl[3])
 		}
@@ -279,15 +280,10 @@ func famObjects(r *fw.Rng, p Poison) Built {
 		// exactly one offending field: the message is unique
 		b.f("    try {\n        let c2 = h.get(\"o\").unwrap() as { p: int, q: str, r: float, s: bool, t: [str] };\n        println(c2);\n    } catch e {\n        println(e.message);\n    }\n")
 	}
-	if p.EqMixed {
-		tags = append(tags, TagEqMixed)
-		// the string-valued key sits opposite the unequal key in a full bucket (see findings.go)
-		b.f("    let e1 = new { ? };\n    e1.set(\"a\", \"x\"); e1.set(\"f1\", 0); e1.set(\"f2\", 0); e1.set(\"f3\", 0); e1.set(\"b\", 1); e1.set(\"f4\", 0); e1.set(\"f5\", 0); e1.set(\"f6\", 0);\n")
-		b.f("    let e2 = new { ? };\n    e2.set(\"a\", 5); e2.set(\"f1\", 0); e2.set(\"f2\", 0); e2.set(\"f3\", 0); e2.set(\"b\", 2); e2.set(\"f4\", 0); e2.set(\"f5\", 0); e2.set(\"f6\", 0);\n    println(e2 == e1);\n")
-	} else {
-		b.f("    let e1 = new { ? };\n    e1.set(\"a\", \"x\"); e1.set(\"b\", 1); e1.set(\"c\", 1);\n")
-		b.f("    let e2 = new { ? };\n    e2.set(\"a\", \"x\"); e2.set(\"b\", 2); e2.set(\"c\", 1);\n    println(e2 == e1, e1 == e1);\n")
-	}
+	// == on any-objects whose values differ in kind under one key (the string-valued key sits
+	// opposite the unequal key in a full bucket: either is reached first from 4 of the 8 offsets)
+	b.f("    let e1 = new { ? };\n    e1.set(\"a\", \"x\"); e1.set(\"f1\", 0); e1.set(\"f2\", 0); e1.set(\"f3\", 0); e1.set(\"b\", 1); e1.set(\"f4\", 0); e1.set(\"f5\", 0); e1.set(\"f6\", 0);\n")
+	b.f("    let e2 = new { ? };\n    e2.set(\"a\", 5); e2.set(\"f1\", 0); e2.set(\"f2\", 0); e2.set(\"f3\", 0); e2.set(\"b\", 2); e2.set(\"f4\", 0); e2.set(\"f5\", 0); e2.set(\"f6\", 0);\n    println(e2 == e1, e1 == e2, e1 == e1);\n")
 	b.f("}\n")
 	return Built{Fam: "objects", Src: map[string]string{"main": b.String()}, Tags: tags}
 }
@@ -501,7 +497,10 @@ func famImpl(r *fw.Rng, p Poison) Built {
 		}
 	}
 	methods := sortedKeysBool(need)
-	mode := r.Intn(4) // 0 correct, 1 some methods missing, 2 extra methods, 3 wrong signatures
+	mode := r.Intn(6) - 2 // <= 0 correct, 1 some methods missing, 2 extra methods, 3 wrong signatures
+	if mode < 0 {
+		mode = 0
+	}
 	b.f("impl Multi with { %s } for $Lamp {\n", strings.Join(caps, ", "))
 	var present []string
 	for _, m := range pickN(r, methods, len(methods)) {
@@ -525,6 +524,10 @@ func famImpl(r *fw.Rng, p Poison) Built {
 	if mode == 0 || mode == 2 {
 		sort.Strings(present)
 		for _, m := range present {
+			if m == "set_temp" || m == "set_cool" || m == "set_white" {
+				b.f("    %s;\n", methodCall[m]) // null result
+				continue
+			}
 			b.f("    println(\"%s\", %s);\n", m, methodCall[m])
 		}
 	}
@@ -604,7 +607,7 @@ func famFatal(r *fw.Rng, p Poison) Built {
 	var b sb
 	depth := 1 + r.Intn(6)
 	kind := r.Intn(7)
-	b.f("let log = [0];\n")
+	b.f("let trail = [0];\n")
 	for d := depth; d >= 1; d-- {
 		b.f("fn level%d(n: int) -> int {\n    let here = n + %d;\n    println(\"level%d\", here);\n", d, d, d)
 		if d == depth {
@@ -645,6 +648,13 @@ func famMisc(r *fw.Rng, p Poison) Built {
 	var b sb
 	ns := 2 + r.Intn(4)
 	names := pickN(r, []string{"Alpha", "Beta", "Gamma", "Delta", "Eps", "Zeta"}, ns)
+	nt := r.Intn(4)
+	if nt > 0 {
+		b.f("import trigger minute from triggers;\nlet base = %d;\n", 1+r.Intn(9))
+		for i := 0; i < nt; i++ {
+			b.f("#[trigger at minute(base * %d)]\nevent fn tick%d(elapsed: int) {\n    println(\"tick%d\", elapsed);\n}\n", i+2, i, i)
+		}
+	}
 	for i, n := range names {
 		lit, _ := objLit(r, 4+r.Intn(4), false)
 		_ = lit
@@ -665,6 +675,9 @@ func famMisc(r *fw.Rng, p Poison) Built {
 	}
 	b.f("    for i in 0..%d {\n        println(i, classify(i), match classify(i) { \"v0\" => 0, \"v1\" => 1, \"other\" => -1, _ => 99 });\n    }\n", arms*3+2)
 	b.f("    let fs = [fn(a: int) -> int { a + 1 }];\n    println(fs[0](1));\n")
+	for i := 0; i < nt; i++ {
+		b.f("    trigger tick%d at minute(%d);\n", i, i+1)
+	}
 	b.f("}\n")
 	return Built{Fam: "misc", Src: map[string]string{"main": b.String()}}
 }
